@@ -580,6 +580,20 @@ def run_point(doc, log):
                 if np.shares_memory(sv_new, sv):
                     log.count("probe:trial-aliases-committed")
                 sv = np.array(sv_new, copy=True)
+                if model == "MS:linear_elastic" and not mixed:
+                    # continuation from the state just committed with an increment of a few billionths
+                    # (a stiff part at tiny strains, a very fine load step): the stress follows the
+                    # increment - linear law, so the secant over the tiny step is the elasticity
+                    dF_ = 3e-9 * rng.normal(size=F.shape)
+                    s0_ = np.array(umat.gradient([np.array(F, copy=True), sv.copy()])[0], copy=True)
+                    s1_ = np.array(umat.gradient([F + dF_, sv.copy()])[0], copy=True)
+                    A_ = np.asarray(umat.hessian([np.array(F, copy=True), sv.copy()])[0])
+                    pred_ = np.einsum("ijkl...,kl...->ij...", np.broadcast_to(A_, A_.shape[:4] + F.shape[2:]), dF_)
+                    err_ = float(np.abs((s1_ - s0_) - pred_).max())
+                    ref_ = float(np.abs(pred_).max())
+                    if err_ > 1e-3 * ref_ + 1e-13 * float(np.abs(s0_).max()):
+                        raise Violation(PROP, "fd-hessian", f"{model}: continued from the committed state with a strain increment of 3e-9 the stress changes by {float(np.abs(s1_ - s0_).max()):.3e}, elasticity : increment is {ref_:.3e}", site=f"{model}.tiny-increment")
+                    log.count("tiny-increment-from-committed-state")
             if had_reject:
                 rejected_then_commit = True
                 log.count("reject-then-commit")
